@@ -129,4 +129,89 @@ theorem page_start_16_aligned (cnt seg idx bs psz : Nat) (hseg0 : seg % 33554432
   rw [e]
   omega
 
+theorem add_adjust_mod (p b : Nat) (hb : 0 < b) : (p + (b - p % b)) % b = 0 := by
+  have h1 : p % b < b := Nat.mod_lt _ hb
+  have h2 : p = b * (p / b) + p % b := (Nat.div_add_mod p b).symm
+  have h3 : p + (b - p % b) = b * (p / b + 1) := by
+    rw [Nat.mul_add, Nat.mul_one]; omega
+  rw [h3]; exact Nat.mul_mod_right _ _
+
+/-- **general form**: for every block size that is a multiple of 16 and at most 64 KiB — all size classes from 16 bytes up to the largest
+    small-page class are — the block area starts at a multiple of the block size whenever the page has room for the adjustment; so every
+    block is aligned to every power of two that divides its size class -/
+theorem page_start_block_aligned (cnt seg idx bs psz : Nat) (hseg0 : seg % 33554432 = 0) (hseg : seg + 33554432 < 2^64) (hidx : idx < 512)
+    (h16 : bs % 16 = 0) (hb0 : 0 < bs) (hb1 : bs ≤ 65536) (hroom : 2 * bs ≤ (cnt * 65536) % 18446744073709551616) :
+    (_mi_segment_page_start_from_slice cnt seg (seg + 288 + idx * 96) bs psz).1 % bs = 0 := by
+  rw [page_start_eq cnt seg idx bs psz hseg hidx]
+  have h64 : (2:Nat)^64 = 18446744073709551616 := by decide
+  rw [h64] at hseg
+  have hp16 : (seg + idx * 65536) % 16 = 0 := by omega
+  generalize hP : seg + idx * 65536 = P at hp16
+  have hPb : P < 18446744073709551616 - 33554432 + 33554432 := by omega
+  have hPb2 : P + 200000 < 18446744073709551616 := by omega
+  unfold startOffset
+  simp only []
+  have hm : P % bs < bs := Nat.mod_lt _ hb0
+  -- the adjustment
+  have ea : (bs + 18446744073709551616 - P % bs) % 18446744073709551616 = bs - P % bs := by
+    have : bs + 18446744073709551616 - P % bs = (bs - P % bs) + 18446744073709551616 := by omega
+    rw [this, Nat.add_mod_right]; exact Nat.mod_eq_of_lt (by omega)
+  have hc1 : (bs > 0) ∧ (bs ≤ 65536) := ⟨hb0, hb1⟩
+  simp only [hc1, and_self, if_true, ea]
+  have e2 : (bs + (bs - P % bs)) % 18446744073709551616 = bs + (bs - P % bs) := Nat.mod_eq_of_lt (by omega)
+  have e3 : (0 + (bs - P % bs)) % 18446744073709551616 = bs - P % bs := by rw [Nat.zero_add]; exact Nat.mod_eq_of_lt (by omega)
+  simp only [e2, e3]
+  -- so1: the adjustment or 0, in both cases P + so1 is a multiple of bs and so1 a multiple of 16
+  have key : ∀ so1, (P + so1) % bs = 0 → so1 ≤ 65536 → so1 % 16 = 0 →
+      ((P + _mi_align_up (if bs ≥ 8 then (if bs ≤ 64 then ((so1 + ((3 * bs) % 18446744073709551616)) % 18446744073709551616) else (if bs ≤ 512 then ((so1 + bs) % 18446744073709551616) else so1)) else so1) 16) % 18446744073709551616) % bs = 0 := by
+    intro so1 hs1 hs2 hs3
+    have h8 : bs ≥ 8 := by omega
+    simp only [h8, if_true]
+    have hgen : ∀ so2, (P + so2) % bs = 0 → so2 ≤ 65536 + 3 * 65536 → so2 % 16 = 0 → ((P + _mi_align_up so2 16) % 18446744073709551616) % bs = 0 := by
+      intro so2 g1 g2 g3
+      rw [C16L.align_up_eq so2 16 (by decide) (by rw [h64]; omega)]
+      have e1 : (so2 + 16 - 1) / 16 * 16 = so2 := by omega
+      have e2 : (P + so2) % 18446744073709551616 = P + so2 := Nat.mod_eq_of_lt (by omega)
+      rw [e1, e2]; exact g1
+    split
+    · have e : (3 * bs) % 18446744073709551616 = 3 * bs := Nat.mod_eq_of_lt (by omega)
+      have e' : (so1 + 3 * bs) % 18446744073709551616 = so1 + 3 * bs := Nat.mod_eq_of_lt (by omega)
+      rw [e, e']
+      apply hgen
+      · have : P + (so1 + 3 * bs) = (P + so1) + 3 * bs := by omega
+        rw [this, Nat.add_mul_mod_self_right]; exact hs1
+      · omega
+      · omega
+    · split
+      · have e' : (so1 + bs) % 18446744073709551616 = so1 + bs := Nat.mod_eq_of_lt (by omega)
+        rw [e']
+        apply hgen
+        · have : P + (so1 + bs) = (P + so1) + 1 * bs := by omega
+          rw [this, Nat.add_mul_mod_self_right]; exact hs1
+        · omega
+        · omega
+      · exact hgen so1 hs1 (by omega) hs3
+  by_cases hadj : (bs - P % bs < bs) ∧ ((cnt * 65536) % 18446744073709551616 ≥ bs + (bs - P % bs))
+  · -- adjusted
+    simp only [hadj, and_self, if_true]
+    apply key
+    · exact add_adjust_mod P bs hb0
+    · omega
+    · -- 16 | bs and 16 | P, hence 16 | P % bs and the adjustment
+      have hq : P % bs % 16 = 0 := by
+        have hd : (16 : Nat) ∣ bs := Nat.dvd_of_mod_eq_zero h16
+        have := Nat.mod_mod_of_dvd P hd
+        omega
+      omega
+  · -- not adjusted: then P is already a multiple of bs (the room condition holds by assumption)
+    simp only [hadj, if_false]
+    have hz : P % bs = 0 := by
+      by_cases h0 : P % bs = 0
+      · exact h0
+      · exfalso; apply hadj; exact ⟨by omega, by omega⟩
+    apply key
+    · simpa using hz
+    · omega
+    · rfl
+
 end PageStartL
